@@ -421,7 +421,7 @@ def _explore(repo, tier: str, pid: str):
     """One exploration per process, repository and tier (the three properties and the checks that rest on them share it)."""
     quick = tier == 'quick'
     tasks = []
-    d0, w0 = (6, 2) if quick else (8, 3)
+    d0, w0 = (6, 2) if quick else (7, 3)
     # the tree from the empty auction is split at depth 2 into independent subtrees (one worker each)
     root = Laws('N')
     tasks.append(('tree', 'N', 'NONE', 2, w0, (), False))
